@@ -40,6 +40,7 @@ H = {
     "g1_codec_short_input": dict(crate="zkchannels-crypto", what="G1 element codec: any input shorter than 48 bytes is an error (no panic) and reaches no decoder", functions=["serde.<G1Affine as SerializeElement>::deserialize"]),
     "g2_codec_validates": dict(crate="zkchannels-crypto", what="G2 element codec: same, all 96-byte strings, G2Affine::from_compressed", functions=["serde.<G2Affine as SerializeElement>::deserialize"]),
     "scalar_codec_validates": dict(crate="zkchannels-crypto", what="Scalar codec: all 32-byte strings reach Scalar::from_bytes (canonical only) unchanged; Ok iff it accepts; no reducing decoder (from_bytes_wide/from_raw) is reached", functions=["serde.<Scalar as SerializeElement>::deserialize"]),
+    "big_boxed_array_total_n2": dict(crate="zkchannels-crypto", what="big_boxed_array::deserialize (codec of the 128 digit signatures; generic in N, checked at N=2): value or error, never a panic, for any number of presented elements <= N+2 and any size hint; error when fewer than N", functions=["serde.big_boxed_array::deserialize"], note="serde_big_array's own visitor is in the path (dependency code, executed, not assumed)"),
     "vec_visitor_bounded_allocation": dict(crate="zkchannels-crypto", what="Vec<G> visitor: capacity requested is bounded by a constant, not by the attacker-chosen size hint", functions=["serde.<Vec<G> as SerializeElement>::deserialize"]),
 }
 
